@@ -1115,3 +1115,228 @@ func runNILSLICE(c *Ctx) {
 		}
 	}
 }
+
+// ---- MAKECAP / POWLOOP (added after the C01 mutants) -------------------------------------------------------
+
+func init() {
+	Register(&Rule{ID: "MAKECAP", Props: []string{"C01", "C05"}, Min: 5,
+		Doc: "make([]T, n, c) panics when n > c: every make with a non-constant capacity has a length that is 0, a constant not above a capacity of the form e+k (k ≥ that constant), the same expression as the capacity, or is dominated by a test establishing n ≤ c.",
+		Run: runMAKECAP})
+	Register(&Rule{ID: "POWLOOP", Props: []string{"C04", "C05", "C01", "C09"}, Min: 1,
+		Doc: "LoadMast recomputes shrinkBelowSize as BranchFactor^Height: the stored value is the accumulator of a counted loop that starts at 1, multiplies by Root.BranchFactor once per iteration and runs exactly Root.Height times.",
+		Run: runPOWLOOP})
+}
+
+func stripConv(v ssa.Value) ssa.Value {
+	for {
+		switch x := v.(type) {
+		case *ssa.Convert:
+			v = x.X
+		case *ssa.ChangeType:
+			v = x.X
+		default:
+			return v
+		}
+	}
+}
+
+func runMAKECAP(c *Ctx) {
+	P := c.P
+	for _, fn := range P.Funcs {
+		for _, b := range fn.Blocks {
+			for _, ins := range b.Instrs {
+				mk, ok := ins.(*ssa.MakeSlice)
+				if !ok {
+					continue
+				}
+				pos := P.InstrPos(mk)
+				what := fmt.Sprintf("make(len=%s, cap=%s) in %s", pathDesc(ir.Sym(mk.Len)), pathDesc(ir.Sym(mk.Cap)), ir.FuncName(fn))
+				if mk.Len == mk.Cap || ir.Sym(stripConv(mk.Len)) == ir.Sym(stripConv(mk.Cap)) {
+					c.OK(pos, what, "length and capacity are the same expression", true)
+					continue
+				}
+				lk, lConst := ir.ConstInt(mk.Len)
+				ck, cConst := ir.ConstInt(mk.Cap)
+				if lConst && cConst {
+					if lk <= ck {
+						c.OK(pos, what, "constants", true)
+					} else {
+						c.Violation(fn, pos, "make with constant length above constant capacity", "always panics")
+					}
+					continue
+				}
+				if lConst && lk == 0 {
+					c.OK(pos, what, "length 0", true)
+					continue
+				}
+				if lConst {
+					if add, ok := stripConv(mk.Cap).(*ssa.BinOp); ok && add.Op == token.ADD {
+						if k, isK := ir.ConstInt(add.Y); isK && k >= lk {
+							c.OK(pos, what, fmt.Sprintf("capacity is e+%d ≥ %d for a non-negative e", k, lk), false)
+							continue
+						}
+					}
+				}
+				// a dominating comparison between the two
+				proved := false
+				ls, cs := ir.Sym(stripConv(mk.Len)), ir.Sym(stripConv(mk.Cap))
+				for _, f := range ir.FactsAt(b) {
+					bin, ok := f.Cond.(*ssa.BinOp)
+					if !ok {
+						continue
+					}
+					xs, ys := ir.Sym(stripConv(bin.X)), ir.Sym(stripConv(bin.Y))
+					op := bin.Op
+					if !f.Truth {
+						switch op {
+						case token.GTR:
+							op = token.LEQ
+						case token.GEQ:
+							op = token.LSS
+						case token.LSS:
+							op = token.GEQ
+						case token.LEQ:
+							op = token.GTR
+						default:
+							continue
+						}
+					}
+					if xs == ls && ys == cs && (op == token.LEQ || op == token.LSS) {
+						proved = true
+					}
+					if xs == cs && ys == ls && (op == token.GEQ || op == token.GTR) {
+						proved = true
+					}
+				}
+				if proved {
+					c.OK(pos, what, "dominated by a test establishing len ≤ cap", false)
+				} else {
+					c.Violation(fn, pos, "make whose length may exceed its capacity",
+						"nothing on the path establishes len ≤ cap: for a node with more entries than the capacity expression allows (an over-full node is legal) make panics with 'cap out of range' — a panic on a healthy store")
+				}
+			}
+		}
+	}
+}
+
+func runPOWLOOP(c *Ctx) {
+	P := c.P
+	fn := c.MustFunc("(*Root).LoadMast")
+	if fn == nil {
+		return
+	}
+	isRootField := func(v ssa.Value, name string) bool {
+		ld, ok := stripConv(v).(*ssa.UnOp)
+		if !ok || ld.Op != token.MUL {
+			return false
+		}
+		fa, ok := ld.X.(*ssa.FieldAddr)
+		return ok && ir.IsPtrToNamed(fa.X.Type(), "Root") && ir.FieldName(fa.X.Type(), fa.Field) == name
+	}
+	n := 0
+	for _, b := range fn.Blocks {
+		for _, ins := range b.Instrs {
+			_, f, st, ok := mastFieldStore(ins)
+			if !ok || f != "shrinkBelowSize" {
+				continue
+			}
+			n++
+			pos := P.InstrPos(st)
+			acc, ok := stripConv(st.Val).(*ssa.Phi)
+			if !ok {
+				c.Undecided(fn, pos, "shrinkBelowSize not a loop accumulator", "cannot recognise how BranchFactor^Height is computed")
+				continue
+			}
+			h := acc.Block()
+			var why []string
+			// accumulator: 1 outside, acc*BranchFactor inside
+			loop := map[*ssa.BasicBlock]bool{}
+			if len(h.Succs) == 2 {
+				loop = ir.ReachableFrom(h.Succs[0], func(_, to *ssa.BasicBlock) bool { return to == h })
+			}
+			for i, e := range acc.Edges {
+				if loop[h.Preds[i]] {
+					mul, ok := stripConv(e).(*ssa.BinOp)
+					if !ok || mul.Op != token.MUL || !((stripConv(mul.X) == ssa.Value(acc) && isRootField(mul.Y, "BranchFactor")) || (stripConv(mul.Y) == ssa.Value(acc) && isRootField(mul.X, "BranchFactor"))) {
+						why = append(why, "the accumulator is not multiplied by Root.BranchFactor once per iteration")
+					}
+				} else if k, isK := ir.ConstInt(stripConv(e)); !isK || k != 1 {
+					why = append(why, "the accumulator does not start at 1")
+				}
+			}
+			// trip count: exactly Height iterations
+			iff, _ := h.Instrs[len(h.Instrs)-1].(*ssa.If)
+			okTrip := false
+			if iff != nil {
+				if cmp, ok := iff.Cond.(*ssa.BinOp); ok {
+					ctr, _ := stripConv(cmp.X).(*ssa.Phi)
+					if ctr != nil && ctr.Block() == h {
+						var init, step int64 = -99, 0
+						for i, e := range ctr.Edges {
+							if loop[h.Preds[i]] {
+								if inc, ok := stripConv(e).(*ssa.BinOp); ok && stripConv(inc.X) == ssa.Value(ctr) {
+									if k, isK := ir.ConstInt(inc.Y); isK {
+										if inc.Op == token.ADD {
+											step = k
+										} else if inc.Op == token.SUB {
+											step = -k
+										}
+									}
+								}
+							} else if k, isK := ir.ConstInt(stripConv(e)); isK {
+								init = k
+							}
+						}
+						bound := isRootField(cmp.Y, "Height")
+						switch {
+						case bound && cmp.Op == token.LSS && init == 0 && step == 1:
+							okTrip = true
+						case bound && cmp.Op == token.LEQ && init == 1 && step == 1:
+							okTrip = true
+						}
+						if !okTrip {
+							why = append(why, fmt.Sprintf("the loop does not run exactly Root.Height times (counter starts at %d, step %+d, test %s against Height=%v)", init, step, cmp.Op, bound))
+						}
+					} else if ctr2, _ := stripConv(cmp.X).(*ssa.Phi); ctr2 != nil {
+						_ = ctr2
+					}
+				}
+			}
+			if iff == nil {
+				why = append(why, "no loop condition")
+			} else if !okTrip && len(why) == 0 {
+				// e.g. counting down from Height
+				if cmp, ok := iff.Cond.(*ssa.BinOp); ok {
+					if ctr, _ := stripConv(cmp.X).(*ssa.Phi); ctr != nil && ctr.Block() == h && cmp.Op == token.GTR {
+						if k, isK := ir.ConstInt(cmp.Y); isK && k == 0 {
+							initOK, stepOK := false, false
+							for i, e := range ctr.Edges {
+								if loop[h.Preds[i]] {
+									if dec, ok := stripConv(e).(*ssa.BinOp); ok && dec.Op == token.SUB && stripConv(dec.X) == ssa.Value(ctr) {
+										if k, isK := ir.ConstInt(dec.Y); isK && k == 1 {
+											stepOK = true
+										}
+									}
+								} else if isRootField(e, "Height") {
+									initOK = true
+								}
+							}
+							okTrip = initOK && stepOK
+						}
+					}
+				}
+				if !okTrip {
+					why = append(why, "cannot show that the loop runs exactly Root.Height times")
+				}
+			}
+			if len(why) == 0 {
+				c.OK(pos, "shrinkBelowSize = BranchFactor^Height in "+ir.FuncName(fn), "accumulator starts at 1, ×BranchFactor per iteration, exactly Height iterations", false)
+			} else {
+				c.Violation(fn, pos, "shrinkBelowSize is not BranchFactor^Height", strings.Join(why, "; ")+": a reloaded tree gets the thresholds of a different height and grows/shrinks at the wrong sizes (e.g. deleting it empty fails in shrink)")
+			}
+		}
+	}
+	if n == 0 {
+		c.AnchorMissing("store of Mast.shrinkBelowSize in LoadMast")
+	}
+}
